@@ -672,6 +672,20 @@ def job_pdb_columns(seed):
     return obs
 
 
+def dlpoly_writer_members(this):
+    """unit members the writer class declares (dlpolytrajectorywriter.h): name -> enumerator"""
+    hdr = open(os.path.join(core.REPO, 'csg/src/libcsg/modules/io/dlpolytrajectorywriter.h')).read()
+    for nm, en in re.findall(r'const\s+tools::\w+\s+(\w+)\s*=\s*tools::\w+::(\w+)\s*;', hdr):
+        this[nm] = en
+    return this
+
+
+def uc_decl(ex_, vd, ty, inner):
+    if 'UnitConverter' in ty:
+        return UnitConverterAST('csg/src/libcsg/modules/io/dlpolytrajectorywriter.cc')
+    return NotImplemented
+
+
 def job_dlpoly_box(seed):
     """DL_POLY CONFIG: the three cell lines of the writer, read by the reader, give the box back (cell vector i is line i; VOTCA keeps the box vectors as columns)"""
     rvc.reset()
@@ -698,8 +712,8 @@ def job_dlpoly_box(seed):
             elif v is not MANIP and not (isinstance(v, tuple) and v and v[0] == 'function'):       # stream manipulators carry no value
                 cur.append(v)
         conf = Obj(m_HasForce=lambda: False, m_HasVel=lambda: False, m_getBoxType=lambda: 'typeTriclinic', m_BeadCount=lambda: 0, m_getBox=lambda: box.copy(), m_getTime=lambda: D(sp.Symbol('time', positive=True)), m_getStep=lambda: 5)
-        cb = {'ostream_write': wr, 'setw': lambda *a: MANIP, 'setprecision': lambda *a: MANIP, 'global': lambda nm: MANIP if nm in ('fixed', 'left', 'right', 'scientific') else K[nm], 'enum': lambda nm: nm}
-        ex = Exec({'conf': conf}, cb, {}, {'__class__': 'DLPOLYTrajectoryWriter', 'fl_': 'ostream', 'isConfig_': is_config})
+        cb = {'ostream_write': wr, 'setw': lambda *a: MANIP, 'setprecision': lambda *a: MANIP, 'global': lambda nm: MANIP if nm in ('fixed', 'left', 'right', 'scientific') else K[nm], 'enum': lambda nm: nm, 'decl': uc_decl}
+        ex = Exec({'conf': conf}, cb, {}, dlpoly_writer_members({'__class__': 'DLPOLYTrajectoryWriter', 'fl_': 'ostream', 'isConfig_': is_config}))
         try:
             ex.stmt(rvc.body_of(fw['Write'][0]))
         except Ret:
@@ -748,7 +762,112 @@ def job_dlpoly_box(seed):
     return obs
 
 
-def replay_dlpoly(o):
+class UnitConverterAST:
+    """tools::UnitConverter executed from the AST of the translation unit that uses it: convert(from, to) and the get<Dim>Value_ tables are the real code
+    (their consistency is property C20); the overload is chosen by the enum that declares the two enumerators (read from unitconverter.h)"""
+    def __init__(s, relpath):
+        s.fns = rvc.functions(rvc.ast(relpath, 'UnitConverter'))
+        if 'convert' not in s.fns:
+            raise core.Undecided('front end: UnitConverter::convert not found in the AST of %s' % relpath)
+        txt = open(os.path.join(core.REPO, 'tools/include/votca/tools/unitconverter.h')).read()
+        s.enums = {m.group(1): [x.strip() for x in m.group(2).split(',') if x.strip()] for m in re.finditer(r'enum\s+(\w+)\s*\{([^}]*)\}', txt)}
+        if not s.enums:
+            raise core.Undecided('front end: no enum declarations found in unitconverter.h')
+    def call(s, name, args):
+        if name != 'convert':
+            raise rvc.Unsupported('UnitConverter::' + name)
+        a, b = [str(x).split('::')[-1] for x in args]
+        dims = [d for d, names in s.enums.items() if a in names and b in names]
+        if len(dims) != 1:
+            raise rvc.Unsupported('UnitConverter::convert(%s, %s): the enumerators do not belong to exactly one unit enum (%s)' % (a, b, dims))
+        cand = [f for f in s.fns['convert'] if rvc.body_of(f) and re.search(r'\b%s\b' % dims[0], f['type']['qualType'])]
+        if len(cand) != 1:
+            raise rvc.Unsupported('UnitConverter::convert for %s: %d overloads' % (dims[0], len(cand)))
+        this = {'__class__': 'UnitConverter'}
+        val = {}            # enumerator -> its value (position in its unscoped enum; no enumerator of unitconverter.h has an initialiser)
+        for names in s.enums.values():
+            for k_, nm in enumerate(names):
+                if '=' in nm:
+                    raise rvc.Unsupported('enumerator with an initialiser in unitconverter.h: %s' % nm)
+                val.setdefault(nm, k_)
+        ex = Exec({}, {'enum': lambda nm: val[nm.split('::')[-1]], 'exec_classes': ('UnitConverter',)}, s.fns, this)
+        return D.lift(ex.call_fn(cand[0], [s.enums[dims[0]].index(a), s.enums[dims[0]].index(b)], this))
+
+
+def job_dlpoly_atoms(seed):
+    """DL_POLY CONFIG with one bead that has position, velocity and force: the three vector lines the writer produces, read by the reader, give the bead's
+    position, velocity and force back (unit factors of writer and reader are inverse for each of the three quantities)"""
+    rvc.reset()
+    fw = rvc.functions(rvc.ast('csg/src/libcsg/modules/io/dlpolytrajectorywriter.cc', 'DLPOLYTrajectoryWriter::Write'))
+    fr = rvc.functions(rvc.ast('csg/src/libcsg/modules/io/dlpolytrajectoryreader.cc', 'DLPOLYTrajectoryReader::NextFrame'))
+    if 'Write' not in fw or 'NextFrame' not in fr:
+        raise core.Undecided('front end: DLPOLYTrajectoryWriter::Write / DLPOLYTrajectoryReader::NextFrame not found')
+    K = constants()
+    obs = []
+    mfs = [{'name': 'DLPOLYTrajectoryWriter::Write', 'file': 'csg/src/libcsg/modules/io/dlpolytrajectorywriter.cc', 'ast_nodes': rvc.node_count(fw['Write'][0])},
+           {'name': 'DLPOLYTrajectoryReader::NextFrame', 'file': 'csg/src/libcsg/modules/io/dlpolytrajectoryreader.cc', 'ast_nodes': rvc.node_count(fr['NextFrame'][0])}]
+    box = Mx.sym('h', 3, 3)
+    pos, vel, frc = Mx.sym('r', 3), Mx.sym('v', 3), Mx.sym('f', 3)
+    lines, cur = [], []
+    MANIP = ('manip',)
+    def wr(v):
+        if v == 'ostream':
+            lines.append(list(cur)); del cur[:]
+        elif v is not MANIP and not (isinstance(v, tuple) and v and v[0] == 'function'):
+            cur.append(v)
+    bead = Obj(m_getType=lambda: 'TY', m_getName=lambda: 'NM', m_getMass=lambda: D(sp.Symbol('m', positive=True)), m_getQ=lambda: D(sp.Symbol('q', real=True)), m_getPos=lambda: pos.copy(), m_getVel=lambda: vel.copy(), m_getF=lambda: frc.copy(),
+               m_HasVel=lambda: True, m_HasF=lambda: True, m_HasPos=lambda: True)
+    conf = Obj(m_HasForce=lambda: True, m_HasVel=lambda: True, m_getBoxType=lambda: 'typeTriclinic', m_BeadCount=lambda: 1, m_getBox=lambda: box.copy(), m_getTime=lambda: D(sp.Symbol('time', positive=True)), m_getStep=lambda: 5, m_getBead=lambda i: bead)
+    def decl(ex_, vd, ty, inner):
+        if 'UnitConverter' in ty:
+            return UnitConverterAST('csg/src/libcsg/modules/io/dlpolytrajectorywriter.cc')
+        return NotImplemented
+    cb = {'ostream_write': wr, 'setw': lambda *a: MANIP, 'setprecision': lambda *a: MANIP, 'resetiosflags': lambda *a: MANIP, 'decl': decl,
+          'global': lambda nm: MANIP if nm in ('fixed', 'left', 'right', 'scientific') else K[nm], 'enum': lambda nm: nm}
+    this = dlpoly_writer_members({'__class__': 'DLPOLYTrajectoryWriter', 'fl_': 'ostream', 'isConfig_': True})
+    ex = Exec({'conf': conf}, cb, {}, this)
+    try:
+        ex.stmt(rvc.body_of(fw['Write'][0]))
+    except Ret:
+        pass
+    bound = 'CONFIG frame with one bead (position, velocity, force)'
+    ok = len(lines) == 2 + 3 + 1 + 3 and all(len(l) == 3 for l in lines[2:5] + lines[6:9])
+    ob(obs, 'C08.dlpoly.atoms/frame-shape', 'DLPOLYTrajectoryWriter::Write', 'header (2 lines), three cell lines, then per bead a label line and three lines of three values (position, velocity, force)', ok, str(lines)[:500], bound=bound, fns=mfs)
+    if not ok:
+        return obs
+    got = {}
+    rl = [lines[0]] + [list(l) for l in lines[1:]]
+    getline, state, pos_ = reader_stream(rl)
+    rbead = Obj(m_setPos=lambda v: got.__setitem__('pos', v.copy()), m_setVel=lambda v: got.__setitem__('vel', v.copy()), m_setF=lambda v: got.__setitem__('frc', v.copy()))
+    top = Obj(m_BeadCount=lambda: 1, m_setBox=lambda b, ty=None: got.__setitem__('box', b.copy()), m_SetHasVel=lambda v: None, m_SetHasForce=lambda v: None, m_setTime=lambda v: None, m_setStep=lambda v: None,
+              m_getTime=lambda: D(5) * D(sp.Symbol('dstep')), m_getBead=lambda i: rbead)
+    def rdecl(ex_, vd, ty, inner):
+        if 'Tokenizer' in ty:
+            v = ctor_arg(ex_, inner)
+            return Obj(m_ToVector=lambda: [(rvc._i(x) if (isinstance(x, D) and x.v.is_Integer) else x) for x in v])
+        return NotImplemented
+    cbr = {'getline': getline, 'eof': lambda f: state['eof'], 'decl': rdecl, 'global': lambda nm: K[nm], 'enum': lambda nm: nm, 'ostream_write': lambda *a: None,
+           'lexical_cast': lambda x: rvc._i(x) if not isinstance(x, str) else (int(x) if re.fullmatch(r'-?\d+', x) else x), 'stod': lambda x: D.lift(x), 'abs': lambda x: D(0)}
+    exr = Exec({'conf': top}, cbr, {}, {'__class__': 'DLPOLYTrajectoryReader', 'fl_': 'STREAM', 'fname_': 'FILE', 'first_frame_': True, 'isConfig_': True})
+    thrown = False
+    try:
+        exr.stmt(rvc.body_of(fr['NextFrame'][0]))
+    except Ret:
+        pass
+    except Thrown:
+        thrown = True
+    for key, what, orig in (('pos', 'position', pos), ('vel', 'velocity', vel), ('frc', 'force', frc)):
+        rb = got.get(key)
+        bad = [('not set', thrown)] if rb is None else [(i, str(rb.flat()[i].v)) for i in range(3) if not rvc.nf_zero(rb.flat()[i].v - orig.g(i).v)]
+        o = ob(obs, 'C08.dlpoly.atoms/%s' % what, 'DLPOLYTrajectoryWriter::Write + DLPOLYTrajectoryReader::NextFrame', 'the %s read back from the lines the writer produced is the %s written (the unit factors of writer and reader are inverse)' % (what, what), not bad,
+               'written line: %s; differing components (i, read): %s' % (lines[6 + ('pos', 'vel', 'frc').index(key)], bad), bound=bound, fns=mfs,
+               wit={'quantity': what, 'written': str(lines[6 + ('pos', 'vel', 'frc').index(key)]), 'read': str(bad)})
+        if bad:
+            replay_dlpoly(o, 'atoms')
+    return obs
+
+
+def replay_dlpoly(o, mode='box'):
     try:
         exe = native.build('C08.dlpoly', open(os.path.join(CDIR, 'replay_dlpoly_box.cc')).read(), [], sanitize=False, opt='-O1', libs=native.libs())
     except core.Undecided as e:
@@ -757,8 +876,8 @@ def replay_dlpoly(o):
     tmp = os.path.join(core.VERIF, 'build', 'tmp', 'c08_dlpoly_%d' % os.getpid())
     os.makedirs(tmp, exist_ok=True)
     f = os.path.join(tmp, 'CONFIG.dlpc')
-    rc, out, err = native.execute(exe, [f], timeout=60)
-    o['replay'] = {'reproduced': rc == 1, 'cmd': '%s %s' % (exe, f), 'rc': rc, 'stdout': (out or '')[-900:], 'stderr': (err or '')[-300:],
+    rc, out, err = native.execute(exe, [f, mode], timeout=60)
+    o['replay'] = {'reproduced': rc == 1, 'cmd': '%s %s %s' % (exe, f, mode), 'rc': rc, 'stdout': (out or '')[-900:], 'stderr': (err or '')[-300:],
                    'against': 'real DLPOLYTrajectoryWriter / DLPOLYTrajectoryReader through the factories (libvotca_csg from the working tree): one bead, triclinic box, CONFIG format'}
 
 
@@ -997,7 +1116,7 @@ def collect(obs):
 
 
 def run(tier, seed, only=None):
-    jobs = [(job_gro_box, (seed,)), (job_lammps_box, (seed,)), (job_dlpoly_box, (seed,)), (job_lammps_atoms, (seed,)), (job_gro_atoms, (seed,)), (job_writer_units, (seed,)), (job_pdb_columns, (seed,)), (job_count, (seed,)), (job_table, (seed,))]
+    jobs = [(job_gro_box, (seed,)), (job_lammps_box, (seed,)), (job_dlpoly_box, (seed,)), (job_lammps_atoms, (seed,)), (job_gro_atoms, (seed,)), (job_writer_units, (seed,)), (job_pdb_columns, (seed,)), (job_count, (seed,)), (job_table, (seed,)), (job_dlpoly_atoms, (seed,))]
     if only:
         jobs = [j for j in jobs if re.search(only, j[0].__name__)] or jobs
     obs = core.pmap(jobs)
